@@ -1,7 +1,7 @@
 (** C14 — no handler panics: not on any answer a store can give (a message without error, or no message with an error), not on any request against the abstract store, not anywhere in a history of deliveries, requests and client calls *)
 From IV Require Import Base.Bytes Model.StoreSpec Model.Rest Proofs.Rest.
 Theorem handler_total :
-  (forall mb num a r, ans_wf a = true -> In r (lookup_resps mb num a) -> fst r <> SPanic) /\
+  (forall mb rid num a r, ans_wf a = true -> In r (lookup_resps mb rid num a) -> fst r <> SPanic) /\
   (forall mfa cfg base st rq, fst (snd (serve mfa cfg base st rq)) <> SPanic) /\
   (forall mfa cfg base cbase ops st p, ~ In (OResp (SPanic, p)) (hrun mfa cfg base cbase st ops)).
 Proof. split; [exact lookup_no_panic|split; [exact serve_no_panic|exact hrun_no_panic]]. Qed.
